@@ -36,6 +36,11 @@ class HarnessCap(BaseException):       # BaseException: the library's blanket 'e
     pass
 
 
+# A search inside an engine's C code cannot be interrupted by the per-case alarm, so every real engine the fakes use is
+# given a conflict limit (deterministic, unlike a time limit); reaching it ends the run as a skipped case (HarnessCap).
+CMSGEN_CONFL_LIMIT = 100000
+
+
 def stream(seed, name):
     return random.Random(int(hashlib.sha256(("%s/%s" % (seed, name)).encode()).hexdigest(), 16))
 
@@ -237,10 +242,12 @@ class PeerPolicy:
         n = max([abs(l) for c in clauses for l in c] + [nvars or 0])
         pol = self.policy
         if pol == "cmsgen":
-            s = _real_pycmsgen.Solver(seed=self.rng.randrange(1 << 30))
+            s = _real_pycmsgen.Solver(seed=self.rng.randrange(1 << 30), confl_limit=CMSGEN_CONFL_LIMIT)
             for c in clauses:
                 s.add_clause(c)
             sat, sol = s.solve()
+            if sat is None:
+                raise HarnessCap("sampler conflict limit")
             if not sat:
                 return None
             model = [None] + [bool(sol[v]) if v < len(sol) else False for v in range(1, n + 1)]
@@ -286,13 +293,15 @@ class PeerPolicy:
 
 def enumerate_models(clauses, nvars, cap, project=None):
     """All models over variables 1..nvars (or projected onto `project`) in canonical (sorted) order."""
-    s = _real_pycryptosat.Solver()
+    s = _real_pycryptosat.Solver(confl_limit=300000)
     for c in clauses:
         s.add_clause(c)
     vars_ = list(project) if project is not None else list(range(1, nvars + 1))
     out = []
     while True:
         sat, sol = s.solve()
+        if sat is None:
+            raise HarnessCap("solver conflict limit")
         if not sat:
             break
         sol = list(sol) + [False] * (nvars + 1 - len(sol))
